@@ -1,1 +1,3 @@
 import SlimProps.Bridge
+import SlimProps.C04
+import SlimProps.C08
